@@ -702,7 +702,7 @@ fn value_conversions(cx: &mut Ctx) {
     let Some(lx) = lr::load_lexer(cx, rule) else { return };
     let t = sm::tsx(&lx.file);
     let checks = [
-        ("radix-int", "letvalue=BigInt::from_str_radix(&value_text,radix)", "prefixed integers: BigInt::from_str_radix(&value_text, radix)"),
+        ("radix-int", "letvalue_text=self.radix_run(radix);letend_pos=self.get_pos();letvalue=BigInt::from_str_radix(&value_text,radix)", "prefixed integers: BigInt::from_str_radix(&value_text, radix)"),
         ("decimal-int", "letvalue=value_text.parse::<BigInt>().unwrap();", "decimal integers: value_text.parse::<BigInt>()"),
         ("float", "letvalue=f64::from_str(&value_text).map_err(", "floats: f64::from_str(&value_text)"),
         ("imag-int", "letimag=f64::from_str(&value_text).unwrap();", "imaginary integer literals: f64::from_str(&value_text)"),
